@@ -280,6 +280,7 @@ func (db *DB) WaitOnTasks() error {
 }
 
 func (db *DB) rotateMemtable() {
+	vhook.At("dkv.rotate", db)
 	// Immediately replace the active table so that writes can continue.
 	db.mtables.Rotate()
 	// Segment the WAL so that obsolete entries can be dropped once the
@@ -312,6 +313,7 @@ func (db *DB) rotateMemtable() {
 
 		// Run compact steps until there is no changeset
 		db.tasks.Enqueue(compactionQueue, func() error {
+			vhook.At("dkv.compact.start", db)
 			for {
 				cs, err := db.compactor.Compact(db.currentSSTables())
 				if err != nil {
